@@ -67,6 +67,12 @@ PRIMARY_DELIMITER_DONE:
 		switch {
 		case 'a' <= r0.Rune && r0.Rune <= 'z', 'A' <= r0.Rune && r0.Rune <= 'Z', '0' <= r0.Rune && r0.Rune <= '9':
 			uncommitted = append(uncommitted, r0)
+		case r0.Rune == '-':
+			if uncommitted[len(uncommitted)-1].Rune == '-' {
+				return nil, grammar.R_LANGTAG.Err(r.newOffsetError(cursorioutil.UnexpectedRuneError{Rune: r0.Rune}, uncommitted.AsDecodedRunes(), r0.AsDecodedRunes()))
+			}
+
+			uncommitted = append(uncommitted, r0)
 		default:
 			r.buf.BacktrackRunes(r0)
 
@@ -76,7 +82,9 @@ PRIMARY_DELIMITER_DONE:
 
 DONE:
 
-	if uncommitted[len(uncommitted)-1].Rune == '-' {
+	if len(uncommitted) == 1 {
+		return nil, grammar.R_LANGTAG.Err(r.newOffsetError(cursorioutil.UnexpectedRuneError{Rune: uncommitted[0].Rune}, cursorio.DecodedRunes{}, uncommitted.AsDecodedRunes()))
+	} else if uncommitted[len(uncommitted)-1].Rune == '-' {
 		return nil, grammar.R_LANGTAG.Err(r.newOffsetError(
 			cursorioutil.UnexpectedRuneError{
 				Rune: uncommitted[len(uncommitted)-1].Rune,
